@@ -57,6 +57,8 @@ def run_sim_check(spec, tier, seed, replay=None):
         if reported < 3:
             rep.violation("fail%d" % reported, describe(c, ti, tm, "property monitor fails on the implementation: " + why))
         reported += 1
+    # divergences explained by a listed known finding do not count (the model cannot exhibit e.g. lost bytes)
+    diverging = [(c, ti, tm, why) for (c, ti, tm, why) in diverging if not classify(c, ti, tm, "divergence")]
     if reported == 0 and (diverging or problems):
         # a proof obligation or the correspondence no longer checks: search for a concrete failing input
         found = None
